@@ -1,6 +1,8 @@
 // Property-specific generators, runners and enumerators on top of the common interpreter.
 #pragma once
 #include "engine.hpp"
+#include <sys/time.h>
+#include <signal.h>
 
 namespace hist { namespace special {
 
@@ -31,8 +33,31 @@ inline void zygote_loop(int rfd, int wfd) {
     if (len && !read_all(rfd, &txt[0], len)) _exit(0);
     pid_t c = fork();
     if (c == 0) {
+      // interval timers are not inherited: a library call that never returns would block the worker for ever. After 300 CPU
+      // seconds the child is killed by the default action; the parent sees the death (and, for verdict mode, repeats the case
+      // in-process under its own per-call watchdog)
+      { signal(SIGVTALRM, SIG_DFL); struct itimerval it; memset(&it, 0, sizeof it); it.it_value.tv_sec = 300; setitimer(ITIMER_VIRTUAL, &it, nullptr); }
       History h; std::string err;
       std::vector<uint64_t> out;
+      if (txt.compare(0, 9, "#verdict ") == 0) {
+        // verdict mode: the whole case, oracles included, runs here (a case is then a pure function of its history)
+        unsigned long long en = 0; unsigned cc = 0, cyc = 100000;
+        sscanf(txt.c_str(), "#verdict enabled=%llu check_code=%u cycle=%u", &en, &cc, &cyc);
+        std::string sig, msg; uint64_t feat = 0; uint32_t failed = 0;
+        if (from_text(txt, h, &err)) {
+          Ctx cx; cx.enabled = (uint32_t)en; cx.check_code = cc != 0; cx.cycle_limit_n = cyc; cx.want_trace = false;
+          std::map<int, std::shared_ptr<CodeRef>> inj;
+          if (g_inject_hook.fn) g_inject_hook.fn(h, cx, inj);
+          if (!cx.stop) run_history(h, cx, inj.empty() ? nullptr : &inj);
+          feat = cx.features;
+          if (!cx.fails.empty()) { failed = 1; sig = cx.fails[0].sig; msg = cx.fails[0].msg; }
+        }
+        uint32_t tag = 0x56455244, sl = (uint32_t)sig.size(), ml = (uint32_t)msg.size();
+        write_all(wfd, &tag, 4); write_all(wfd, &failed, 4); write_all(wfd, &feat, 8);
+        write_all(wfd, &sl, 4); if (sl) write_all(wfd, sig.data(), sl);
+        write_all(wfd, &ml, 4); if (ml) write_all(wfd, msg.data(), ml);
+        _exit(0);
+      }
       if (from_text(txt, h, &err)) {
         Ctx cx; cx.enabled = 0; cx.want_trace = true;
         std::map<int, std::shared_ptr<CodeRef>> inj;
@@ -86,6 +111,31 @@ inline bool pristine_run(const History& h, std::vector<std::vector<uint64_t>>& t
   return traces.size() == ns;
 }
 
+// runs a whole case (oracles included) in a pristine forked process; false if the child died or sent nothing
+inline bool pristine_verdict(const History& h, uint32_t enabled, bool check_code, uint32_t cycle, uint64_t* features, bool* failed, std::string* sig, std::string* msg, uint32_t* status) {
+  char hd[128]; snprintf(hd, sizeof hd, "#verdict enabled=%llu check_code=%u cycle=%u\n", (unsigned long long)enabled, check_code ? 1u : 0u, cycle);
+  std::string txt = std::string(hd) + to_text(h);
+  uint32_t len = (uint32_t)txt.size();
+  *status = 0; *features = 0; *failed = false;
+  if (zy_to < 0) return false;
+  if (!write_all(zy_to, &len, 4) || !write_all(zy_to, txt.data(), len)) return false;
+  bool got = false;
+  for (;;) {
+    uint32_t tag;
+    if (!read_all(zy_from, &tag, 4)) return false;
+    if (tag == 0x56455244) {
+      uint32_t f, sl, ml;
+      if (!read_all(zy_from, &f, 4) || !read_all(zy_from, features, 8) || !read_all(zy_from, &sl, 4)) return false;
+      sig->assign(sl, 0); if (sl && !read_all(zy_from, &(*sig)[0], sl)) return false;
+      if (!read_all(zy_from, &ml, 4)) return false;
+      msg->assign(ml, 0); if (ml && !read_all(zy_from, &(*msg)[0], ml)) return false;
+      *failed = f != 0; got = true;
+    } else if (tag == 0x454E4421) { uint32_t v; if (!read_all(zy_from, &v, 4)) return false; *status = v; break; }
+    else return false;
+  }
+  return got && *status == 0;
+}
+
 // ---------------------------------------------------------------------------------------------
 struct Extra { bool check_code = false; uint32_t cycle_limit_n = 100000; std::set<std::string> known; };
 static Extra g_extra;
@@ -127,7 +177,45 @@ inline PropSpec full_spec(const std::string& id, const Tier& t) {
 inline void apply_extra(Ctx& cx) { cx.check_code = g_extra.check_code; cx.cycle_limit_n = g_extra.cycle_limit_n; cx.known_sigs = g_extra.known; }
 
 // ---- C05 -------------------------------------------------------------------------------------
+// Marathon with a revisit: dozens of sessions one after the other in one process; a code X is configured, then filler
+// sessions whose source-symbol counts add up so that X is configured again exactly W + d columns later (W a power of two
+// or one less: 2^8, 2^16, 2^17-2; d in -1..1), then two more codes. Whatever the construction counts across sessions
+// (columns, rows, draws) wraps somewhere along the way; every session's matrix is compared with the reference.
+inline History gen_marathon(const PropSpec& ps, Chooser& ch) {
+  (void)ps;
+  History h;
+  auto mk = [&](uint32_t k, uint32_t r, uint32_t N1, uint32_t seed, int role) {
+    Script s; s.cfg.codec = CODEC_LDPC; s.cfg.k = k; s.cfg.r = std::max(r, N1); s.cfg.N1 = N1; s.cfg.seed = seed; s.cfg.L = 1; s.cfg.payload = PAY_RANDOM; s.cfg.pseed = k * 7 + r;
+    s.role = role; s.cbmode = 1;
+    Step sp; sp.op = OP_SETPARAMS; s.steps.push_back(sp);
+    return s;
+  };
+  uint32_t seedX = 1 + ch.next() % 0x7FFFFFFEu;
+  uint32_t kX = ch.range(60, 200), rX = kX * ch.range(2, 3) + ch.range(0, 5), n1X = ch.range(3, 6);
+  if (ch.coin(1, 2)) h.scripts.push_back(mk(ch.range(2, 40), ch.range(3, 30), 3, 1 + ch.next() % 1000, ROLE_DEC));                 // something small first
+  if (ch.coin(2, 3)) h.scripts.push_back(mk(ch.range(500, 1500), ch.range(1500, 3000), ch.range(3, 5), 1 + ch.next() % 100000, ch.coin(1, 2) ? ROLE_ENC : ROLE_DEC));   // many rows
+  h.scripts.push_back(mk(kX, rX, n1X, seedX, ch.coin(1, 2) ? ROLE_ENC : ROLE_DEC));
+  uint32_t W = ch.pick<uint32_t>({65535, 65535, 65536, 131070, 256, 255, 65537});
+  int d = (int)(ch.next() % 3) - 1;
+  int64_t F = (int64_t)W + d - (int64_t)kX;
+  uint64_t fs = ch.seed64();
+  bool filler_lowrows = ch.coin(2, 3);
+  while (F > 0) {
+    uint32_t k = (uint32_t)std::min<int64_t>(F, 600 + (int64_t)(splitmix(fs) % 401));
+    if (F - k > 0 && F - k < 3) k = (uint32_t)F;   // no tiny remainder
+    // fillers are high-rate blocks (few equations) or rate 2/3 blocks, as the case says: what a session clears or resizes depends on its own dimensions
+    h.scripts.push_back(mk(k, std::max<uint32_t>(3, filler_lowrows ? k / 12 : k / 2), 3, 1 + (uint32_t)(splitmix(fs) % 100000), (splitmix(fs) & 1) ? ROLE_ENC : ROLE_DEC));
+    F -= k;
+  }
+  h.scripts.push_back(mk(kX, rX, n1X, seedX, ch.coin(1, 2) ? ROLE_ENC : ROLE_DEC));                                                  // X again
+  h.scripts.push_back(mk(kX, rX, n1X, 1 + ch.next() % 0x7FFFFFFEu, ROLE_DEC));                                                      // same shape, another seed
+  h.scripts.push_back(mk(ch.range(800, 1200), ch.range(400, 600), 3, 1 + ch.next() % 0x7FFFFFFEu, ROLE_ENC));                       // an ordinary rate 2/3 block
+  for (size_t j = 0; j < h.scripts.size(); j++) for (size_t i = 0; i < h.scripts[j].steps.size() + 2; i++) h.inter.push_back((uint32_t)j);
+  return h;
+}
+
 inline History gen_code_case(const PropSpec& ps, Chooser& ch) {
+  if (g_force == SC_MARATHON || (ps.go.heavy && g_force == SC_NONE && ch.next() % 96 == 95)) return gen_marathon(ps, ch);
   History h;
   GenOpts small; small.max_k_ldpc = 40; small.max_n_ldpc = 80; small.max_n_rs = 40; small.big_L = false;
   uint32_t npre = ch.next() % 4;
@@ -157,7 +245,7 @@ inline History gen_code_case(const PropSpec& ps, Chooser& ch) {
   Script e; e.cfg = c; e.role = ch.coin(1, 5) ? ROLE_BOTH : ROLE_ENC;
   { Step sp; sp.op = OP_SETPARAMS; e.steps.push_back(sp); }
   for (uint32_t i = 0; i < c.r; i++) { Step b; b.op = OP_BUILD; b.esi = c.k + i; e.steps.push_back(b); }
-  Script d; d.cfg = c; d.role = ROLE_DEC; d.cbmode = 1;
+  Script d; d.cfg = c; d.role = ch.coin(1, 4) ? ROLE_BOTH : ROLE_DEC; d.cbmode = 1;
   { Step sp; sp.op = OP_SETPARAMS; d.steps.push_back(sp); }
   std::vector<uint32_t> rec = gen_received(ch, ps.go, c);
   if (rec.size() > 200) rec.resize(200);
@@ -178,6 +266,18 @@ inline History gen_code_case(const PropSpec& ps, Chooser& ch) {
   else if (pat == 2) { uint64_t x = ch.seed64(); for (size_t j = 0; j < 2 * (sa + sb + 4); j++) h.inter.push_back(splitmix(x) & 1 ? pa : pb); }
   else if (pat == 3) { for (size_t j = 0; j < 1 + sa; j++) h.inter.push_back(pa); for (size_t j = 0; j < sb + 2; j++) h.inter.push_back(pb); }
   else if (pat == 5) { for (size_t j = 0; j < sa + 2; j++) h.inter.push_back(pa); }   // the first one's whole life (released) before the second is created
+  // now and then a late third session of the same code: created when the pair has done its work (both still open, or released)
+  if (!big && ch.coin(1, 3)) {
+    Script t3; t3.cfg = c; t3.role = ch.coin(1, 2) ? ROLE_DEC : ROLE_ENC;
+    { Step sp; sp.op = OP_SETPARAMS; t3.steps.push_back(sp); }
+    if (t3.role == ROLE_ENC) for (uint32_t i = 0; i < std::min<uint32_t>(c.r, 40); i++) { Step b; b.op = OP_BUILD; b.esi = c.k + i; t3.steps.push_back(b); }
+    else for (size_t i = 0; i < rec.size() && i < 60; i++) { Step st; st.op = OP_NEW; st.esi = rec[rec.size() - 1 - i]; t3.steps.push_back(st); }
+    bool released = ch.coin(1, 2);
+    // complete the pair's schedule explicitly (all remaining steps, with or without the releases), then the third
+    std::vector<size_t> used(h.scripts.size(), 0); for (uint32_t v : h.inter) if (v < used.size()) used[v]++;
+    for (uint32_t q : {pa, pb}) { size_t total = h.scripts[q].steps.size() + (released ? 2 : 1); for (size_t j = used[q]; j < total; j++) h.inter.push_back(q); }
+    h.scripts.push_back(t3);
+  }
   return h;
 }
 
@@ -542,8 +642,27 @@ inline History gen_retry(Chooser& ch, const GenOpts& o) {
   for (size_t j = 0; j + 1 < h.scripts.size(); j++) for (size_t i = 0; i < h.scripts[j].steps.size() + 2; i++) h.inter.push_back((uint32_t)j);
   return h;
 }
-inline History gen_multi_x(Chooser& ch, const GenOpts& o) { bool r = ch.next() % 16 == 15; return (g_force == SC_RETRY || (r && g_force == SC_NONE)) ? gen_retry(ch, o) : gen_multi(ch, o); }
-inline bool force_is_multi() { return g_force == SC_NOISY || g_force == SC_CROWD || g_force == SC_NESTED || g_force == SC_RETRY || g_force == SC_MULTI || g_force == SC_SIBLING; }
+// a decoder (half of the time created with the combined role) that has made progress stays open while a twin (same
+// parameters, encoder or decoder) lives its whole life; then the first one goes on
+inline History gen_twin(Chooser& ch, const GenOpts& o) {
+  GenOpts oo = o; oo.big_L = false;
+  History h; Script a = gen_decoder_script(ch, oo);
+  if (ch.coin(1, 2)) a.role = ROLE_BOTH;
+  Script b = ch.coin(1, 2) ? gen_encoder_script_cfg(ch, oo, a.cfg) : gen_decoder_script_cfg(ch, oo, a.cfg);
+  if (ch.coin(1, 2)) b.role = (b.role == ROLE_BOTH) ? ROLE_BOTH : (ch.coin(1, 2) ? b.role : ROLE_BOTH);
+  h.scripts.push_back(a); h.scripts.push_back(b);
+  size_t sa = a.steps.size(); size_t part = sa > 2 ? sa / 2 + ch.next() % (sa - sa / 2) : sa;
+  for (size_t j = 0; j < 1 + part; j++) h.inter.push_back(0);
+  for (size_t j = 0; j < b.steps.size() + 2; j++) h.inter.push_back(1);
+  return h;
+}
+inline History gen_multi_x(Chooser& ch, const GenOpts& o) {
+  uint32_t r = ch.next() % 16;
+  if (g_force == SC_RETRY || (r == 15 && g_force == SC_NONE)) return gen_retry(ch, o);
+  if (g_force == SC_TWIN || (r >= 13 && g_force == SC_NONE)) return gen_twin(ch, o);
+  return gen_multi(ch, o);
+}
+inline bool force_is_multi() { return g_force == SC_TWIN || g_force == SC_NOISY || g_force == SC_CROWD || g_force == SC_NESTED || g_force == SC_RETRY || g_force == SC_MULTI || g_force == SC_SIBLING; }
 inline bool force_is_deep() { return g_force == SC_DEEP0 || g_force == SC_DEEP1 || g_force == SC_DEEP2; }
 
 // ---------------------------------------------------------------------------------------------
@@ -561,17 +680,6 @@ inline History generate(const PropSpec& ps, Chooser& ch) {
       return w >= 6 ? gen_single_encoder(ch, ps.go) : gen_single_decoder(ch, ps.go);
     }
     case 3: {
-      if ((ch.next() % 10 == 9 && g_force == SC_NONE) || g_force == SC_TWIN) {
-        // a decoder that has made progress stays open while a twin (same parameters, encoder or decoder) lives its whole life
-        GenOpts oo = ps.go; oo.big_L = false;
-        History h; Script a = gen_decoder_script(ch, oo);
-        Script b = ch.coin(1, 2) ? gen_encoder_script_cfg(ch, oo, a.cfg) : gen_decoder_script_cfg(ch, oo, a.cfg);
-        h.scripts.push_back(a); h.scripts.push_back(b);
-        size_t sa = a.steps.size(); size_t part = sa > 2 ? sa / 2 + ch.next() % (sa - sa / 2) : sa;
-        for (size_t j = 0; j < 1 + part; j++) h.inter.push_back(0);
-        for (size_t j = 0; j < b.steps.size() + 2; j++) h.inter.push_back(1);
-        return h;
-      }
       History h = gen_multi_x(ch, ps.go);
       if (ch.next() % 6 == 5) {   // a 2D-parity neighbour (another codec sharing the IT/ML decoder code)
         static const uint32_t shapes[][2] = {{4, 4}, {6, 5}, {9, 6}, {8, 6}, {12, 7}, {16, 8}, {3, 4}, {2, 3}, {10, 7}};
@@ -638,6 +746,16 @@ inline CaseResult run_core(const History& h, const PropSpec& ps, Stats* st, bool
         cx.counters["solo_traces_compared"]++;
       }
     }
+  } else if (ps.kind == 4 && !cx.stop && zy_to >= 0) {
+    // C05: "in any process and after any history of other sessions" - the history is the case, so the case runs in a pristine
+    // forked process (what earlier cases of this worker left in the library's static state is not part of it). If the child
+    // dies, the case is repeated here so that the usual crash triage of the driver applies.
+    uint64_t feat = 0; bool f = false; std::string sig, msg; uint32_t status = 0;
+    if (pristine_verdict(h, cx.enabled, cx.check_code, cx.cycle_limit_n, &feat, &f, &sig, &msg, &status)) {
+      cx.features |= feat; cx.counters["cases_in_pristine_process"]++;
+      if (f) { Fail fl{0, sig, msg}; cx.fails.push_back(fl); }
+      cr.rr.traces.resize(h.scripts.size()); cr.rr.last_null.assign(h.scripts.size(), -1); cr.rr.cfg_ok.assign(h.scripts.size(), 0);
+    } else { cx.counters["pristine_child_died_case_repeated_in_process"]++; cr.rr = run_history(h, cx, inj.empty() ? nullptr : &inj); }
   } else if (!cx.stop) cr.rr = run_history(h, cx, inj.empty() ? nullptr : &inj);
   else { cr.rr.traces.resize(h.scripts.size()); cr.rr.last_null.assign(h.scripts.size(), -1); cr.rr.cfg_ok.assign(h.scripts.size(), 0); }
   // post-run cross-session checks
@@ -888,11 +1006,11 @@ inline bool scenario_cases(const PropSpec& ps, const Tier& t, int worker, int nw
     case 0: case 2:
       if (ldpc && ps.go.api_mode != 2) { plan.push_back({SC_DEEP0, 16}); plan.push_back({SC_DEEP1, 16}); plan.push_back({SC_DEEP2, 8}); }
       if (ldpc) { plan.push_back({SC_WIDEROW, 64}); plan.push_back({SC_WIDEROW_BIG, 48}); plan.push_back({SC_NOISY, 16}); }
-      plan.push_back({SC_CROWD, 32}); plan.push_back({SC_NESTED, 96}); plan.push_back({SC_RETRY, 96}); plan.push_back({SC_SIBLING, 96}); plan.push_back({SC_MULTI, 64});
+      plan.push_back({SC_CROWD, 32}); plan.push_back({SC_NESTED, 96}); plan.push_back({SC_RETRY, 96}); plan.push_back({SC_TWIN, 128}); plan.push_back({SC_SIBLING, 96}); plan.push_back({SC_MULTI, 64});
       break;
     case 1: plan.push_back({SC_ENCPAIR, 192}); plan.push_back({SC_ENCCROWD, 48}); if (ldpc) { plan.push_back({SC_WIDEROW, 48}); plan.push_back({SC_WIDEROW_BIG, 32}); } break;
-    case 3: plan.push_back({SC_TWIN, 96}); plan.push_back({SC_RETRY, 128}); plan.push_back({SC_NESTED, 96}); plan.push_back({SC_CROWD, 32}); plan.push_back({SC_NOISY, 32}); plan.push_back({SC_SIBLING, 128}); break;
-    case 4: plan.push_back({SC_C05BIG, 16}); plan.push_back({SC_C05VERB, 256}); plan.push_back({SC_WIDEROW, 32}); plan.push_back({SC_WIDEROW_BIG, 16}); break;
+    case 3: plan.push_back({SC_TWIN, 192}); plan.push_back({SC_RETRY, 128}); plan.push_back({SC_NESTED, 96}); plan.push_back({SC_CROWD, 32}); plan.push_back({SC_NOISY, 32}); plan.push_back({SC_SIBLING, 128}); break;
+    case 4: plan.push_back({SC_MARATHON, 48}); plan.push_back({SC_C05BIG, 16}); plan.push_back({SC_C05VERB, 256}); plan.push_back({SC_WIDEROW, 32}); plan.push_back({SC_WIDEROW_BIG, 16}); break;
     case 5: plan.push_back({SC_LN256, 128}); plan.push_back({SC_LN65536, 16}); break;
     default: break;
   }
